@@ -325,6 +325,9 @@ where R: LLLRing, for<'x> &'x R: LLLRingOps<R> {
         let (_, l, d) = orthogonalize(&self.target);
         self.lambda = Mat::from(l);
         self.det = d;
+
+        #[cfg(yui_verif)]
+        self.verif_emit("setup", 0, 0, String::new());
     }
 
     // Lovasz condition:
@@ -424,6 +427,9 @@ where R: LLLRing, for<'x> &'x R: LLLRingOps<R> {
         self.lambda[(k, k-1)] = l0.conj();
 
         trace!("swap-rows ({},{}).\n{}", k-1, k, self.dump());
+
+        #[cfg(yui_verif)]
+        self.verif_emit("swap", k - 1, k, String::new());
     }
 
     fn mul_row(&mut self, i: Row, r: &R) { 
@@ -443,6 +449,9 @@ where R: LLLRing, for<'x> &'x R: LLLRingOps<R> {
         self.lambda.mul_col(i, &r.conj());
 
         trace!("mul {} to row {}.\n{}", r, i, self.dump());
+
+        #[cfg(yui_verif)]
+        self.verif_emit("mul_row", i, i, r.to_string());
     }
 
     fn add_row_to(&mut self, i: Row, k: Row, r: &R) {
@@ -466,6 +475,9 @@ where R: LLLRing, for<'x> &'x R: LLLRingOps<R> {
         }
 
         trace!("add-row {} to {}, mul {}.\n{}", i, k, r, self.dump());
+
+        #[cfg(yui_verif)]
+        self.verif_emit("add_row_to", i, k, r.to_string());
     }
 
     fn nz_col_in(&self, i: Row) -> Option<Col> {
@@ -476,16 +488,39 @@ where R: LLLRing, for<'x> &'x R: LLLRingOps<R> {
 
     fn next(&mut self) { 
         self.step += 1;
+
+        #[cfg(yui_verif)]
+        self.verif_emit("next", 0, 0, String::new());
     }
 
     fn back(&mut self) { 
         if self.step > 1 { 
             self.step -= 1;
         }
+
+        #[cfg(yui_verif)]
+        self.verif_emit("back", 0, 0, String::new());
     }
 
     fn nrows(&self) -> usize { 
         self.target.nrows()
+    }
+
+    #[cfg(yui_verif)]
+    fn verif_emit(&self, kind: &'static str, i: usize, k: usize, coeff: String) { 
+        use crate::verif::*;
+        if !lll_hook_installed() { 
+            return
+        }
+        let (m, n) = self.target.shape();
+        let l = self.lambda.nrows();
+        emit_lll(LllStep { 
+            kind, i, k, coeff, 
+            step: self.step,
+            target: (0..m).map(|a| (0..n).map(|b| self.target[(a, b)].to_string()).collect()).collect(),
+            det: self.det.iter().map(|d| d.to_string()).collect(),
+            lambda: (0..l).map(|a| (0..l).map(|b| self.lambda[(a, b)].to_string()).collect()).collect(),
+        });
     }
 
     fn dump(&self) -> String { 
